@@ -98,7 +98,7 @@ class DAGRunConcurrentManager(DAGRunManagerLike):
     _node_storage: DAGNodeStorage = field(default_factory=DAGNodeStorage)
     _lock_manager: DAGConcurrentManagerLock = field(init=False)
     _memorization_store: t.Dict[t.Any, t.Any] = field(default_factory=dict)
-    _coro_tasks: t.Set[asyncio.Task] = field(default_factory=set)
+    _coro_tasks: t.List[asyncio.Task] = field(default_factory=list)
     _started_oneof_children: t.Set[NodeId] = field(default_factory=set)
     _additional_data: t.Dict[NodeId, t.Any] = field(default_factory=dict)
     _alias_run_method: str = 'run'
@@ -142,7 +142,7 @@ class DAGRunConcurrentManager(DAGRunManagerLike):
         """
 
         task = asyncio.create_task(coro, name=name)
-        self._coro_tasks.add(task)
+        self._coro_tasks.append(task)
 
         return task
 
